@@ -278,6 +278,25 @@ class Lib:
                 raise HarnessError('numeric locale %r is not available' % numeric_locale)
         self.ncalls = 0
         self.calls_by_name = {}
+        self.warmup()
+
+    def warmup(self):
+        """one complete life cycle, so that first-use allocations of SQLite / ICU do not look like session leaks"""
+        rc, cif = self.create()
+        if rc != CIF_OK:
+            raise HarnessError('cif_create fails in this environment: %d' % rc)
+        rc, b = self.create_block(cif, 'warm')
+        v = self.make_value(('char', 'x', True))
+        self.set_value(b, '_warm', v)
+        self.value_free(v)
+        self.normalize('Warm\u00e9')
+        self.container_free(b)
+        rc, data = self.write_bytes(cif)
+        self.destroy(cif)
+        rc, c2 = self.parse_bytes(data)
+        if c2:
+            self.destroy(c2)
+        self.events.clear()
 
     # ---- monitored call ----
     def call(self, name, *args):
